@@ -61,4 +61,29 @@ TEXT = {
                        "== is additionally compared with an independent structural model; std conversions round-trip"),
         "level_note": "values containing NaN are a listed deviation (5 law signatures); everything else is judged strictly",
     },
+    "C10": {"engine": "zb",
+        "technique": "exhaustive bounded enumeration of strings against reference recognisers through every construction path",
+        "level_text": "every string over a 10-symbol alphabet to length 5/7 plus limit and UUID-shaped families, for 9 validated types and up to 5 construction paths each, compared with recognisers written from the specification",
+        "level_note": "trusts vref::names; exhaustive only up to the stated length; expensive paths (from_static_str, TryFrom<Value>, Deserialize) sampled 1/37 beyond length 3",
+    },
+    "C11": {"engine": "zb",
+        "technique": "reference-model monitor (independent message parser/marshaller) + library re-parse over generated messages",
+        "level_text": "messages built by the real Builder are dissected by an independent parser written from the message-format section and re-parsed by the library; every requested header datum, derived field and the body must agree. " + SAN,
+        "level_note": "trusts vref::msg; dict order and fd index allocation free",
+    },
+    "C12": {"engine": "zb",
+        "technique": "crash/allocation monitors over hostile message bytes; ASan + Miri layers",
+        "level_text": "hostile byte strings go through Message::from_bytes and every read path of an accepted message under per-case panic capture, a death journal and an allocation bound. " + SAN,
+        "level_note": "reach bounded by the mutators (1-2 stacked mutations, header edits, truncations, random)",
+    },
+    "C13": {"engine": "zb",
+        "technique": "exhaustive code enumeration + stream history monitor on a scripted transport",
+        "level_text": "every unknown field code/flag bit/type is fed to the parser and injected between normal messages on a real Connection whose transport the harness scripts; the delivered history must contain every normal message in order",
+        "level_note": "transport and schedule are the harness's deterministic ones; unknown message types are a listed known finding",
+    },
+    "C14": {"engine": "zb",
+        "technique": "history monitor over a scripted transport under a seeded deterministic scheduler (all short cut sets, random plans)",
+        "level_text": "the real socket-reader/framing code runs over a transport whose read boundaries, fd delivery and task interleaving the harness controls; the delivered history is compared with the sent one. " + SAN,
+        "level_note": "single-threaded deterministic scheduler at existing suspension points; libc recvmsg path only under the ASan socketpair layer (thorough)",
+    },
 }
